@@ -344,6 +344,9 @@ func clauseProps(cl *Clause, c *Contract) []string {
 	if c != nil && len(c.Props) > 0 {
 		return c.Props
 	}
+	if c != nil && c.Parent != nil && len(c.Parent.Props) > 0 {
+		return c.Parent.Props // a loop contract inherits the properties of its function's contract
+	}
 	return safetyProps
 }
 
